@@ -10,6 +10,7 @@ import (
 	"github.com/benbjohnson/clock"
 	"github.com/jamf/regatta/regattapb"
 	"github.com/jamf/regatta/storage"
+	"github.com/jamf/regatta/storage/kv"
 	"github.com/prometheus/client_golang/prometheus"
 	"go.uber.org/zap"
 	"golang.org/x/sync/semaphore"
@@ -103,3 +104,12 @@ func VerifNewStartableWorker(e *storage.Engine, table string, store replicationM
 // Leased tells whether the worker currently believes it holds the table lease (the flag its
 // replication routine consults before every poll).
 func (v *VerifWorker) Leased() bool { return v.w.leased.Load() }
+
+// VerifNewStartableWorkerWithClients is VerifNewStartableWorker with the leader's log and snapshot
+// clients and the log RPC timeout, so that the started replication routine really polls the leader.
+// The store is the one the replication manager uses (the metadata shard of the engine's NodeHost).
+func VerifNewStartableWorkerWithClients(e *storage.Engine, table string, queue *storage.IndexNotificationQueue, lc regattapb.LogClient, sc regattapb.SnapshotClient, leaseInterval, pollInterval, logTimeout time.Duration) *VerifWorker {
+	v := VerifNewStartableWorker(e, table, &kv.RaftStore{NodeHost: e.NodeHost, ClusterID: replicationStoreID}, queue, leaseInterval, pollInterval)
+	v.w.logClient, v.w.snapshotClient, v.w.logTimeout, v.w.snapshotTimeout = lc, sc, logTimeout, 60*time.Second
+	return v
+}
